@@ -19,12 +19,12 @@ type pr struct {
 }
 
 type kase struct {
-	Pairs  []pr  `json:"pairs"`  // in insertion order
-	Flip   []bool `json:"flip"`   // insert pair i as (B,A)
-	Filter int   `json:"filter"` // 0 nil, 1 all, 2 none, 3 by score (even pairs)
-	Twice  bool  `json:"twice"`  // call Piles a second time (after a 'none' call)
-	Redo   int   `json:"redo"`   // after all, add pair Redo again (-1: no), flipped if RedoFlip
-	RedoFlip bool `json:"redoflip"`
+	Pairs    []pr   `json:"pairs"`  // in insertion order
+	Flip     []bool `json:"flip"`   // insert pair i as (B,A)
+	Filter   int    `json:"filter"` // 0 nil, 1 all, 2 none, 3 by score (even pairs)
+	Twice    bool   `json:"twice"`  // call Piles a second time (after a 'none' call)
+	Redo     int    `json:"redo"`   // after all, add pair Redo again (-1: no), flipped if RedoFlip
+	RedoFlip bool   `json:"redoflip"`
 }
 
 var locs = []pals.Contig{"A", "B", "C"}
